@@ -95,7 +95,12 @@ pub fn run_scenario(batch: u8, hc: bool, per_client: bool, slow: bool, steps: &[
                 _ => panic!("bad step {}", s),
             }
         }
-        format!("panic={} obs={}", if panicked { 1 } else { 0 }, if obs.is_empty() { "-".to_string() } else { obs.join(",") })
+        // what the worker's statistics recorder holds at the end (C17: every event of the traffic served, exactly once)
+        let rec = guarded(|| {
+            let st = rig.server.stats_verif();
+            format!("{}.{}.{}.{}", st.total_valid_requests(), st.total_invalid_requests(), st.total_health_checks(), st.total_responses_sent())
+        }).unwrap_or_else(|| "panic".to_string());
+        format!("panic={} obs={} rec={}", if panicked { 1 } else { 0 }, if obs.is_empty() { "-".to_string() } else { obs.join(",") }, rec)
     });
     crate::rig::set_stall(0, 0);
     crate::rig::set_level("off");
